@@ -29,6 +29,7 @@ func init() {
 			ruleCloseBeliefs(r, "E9")
 			ruleC16E10(r)
 			ruleC16E11(r)
+			ruleC16E14(r)
 			ruleWhoMayReceive(r, "E12", "/iscp.Conn.replyCallCh", "(*iscp.Conn).ReceiveReplyCall")
 			ruleWhoMayReceive(r, "E13", "/iscp.Conn.downstreamCallCh", "(*iscp.Conn).ReceiveCall")
 			ruleLockPairingFor(r, le, "E6", "lock pairing in the call correlation paths: every function touching the waiter tables releases their mutexes on every path", func(fn *ssa.Function) bool {
@@ -507,4 +508,70 @@ func ruleC16E11(r *Run) {
 		}
 	})
 	r.Check(name+" receives from its parameter", ok, p.pos(fn.Pos()), name, "the per-call reply channel handed to the wait is never received from: the caller would get whatever arrives elsewhere")
+}
+
+// ruleC16E14: the e2e dispatchers of a connection serve every caller of that connection, so they never wait for the
+// application. A queue that is a field of Conn (drained by ReceiveCall / ReceiveReplyCall whenever the application
+// gets round to it) is fed with a non-blocking select; only the per-call channels looked up in the waiter tables
+// (capacity ≥ 1, rule E4) take a plain send.
+func ruleC16E14(r *Run) {
+	r.Begin("E14", "the shared dispatcher never waits for the application: in the functions of iscp.Conn that look up a waiter in upstreamCallAckCh or replyCallChs (the dispatchers and the helpers their loop bodies were moved to), every send to a channel field of Conn is a case of a select with a default branch", 2)
+	p := r.P
+	tables := map[string]bool{"/iscp.Conn.upstreamCallAckCh": true, "/iscp.Conn.replyCallChs": true}
+	n := 0
+	for _, fn := range p.Funcs {
+		if fnPkgPath(fn) != modPath+"/iscp" || recvTypeName(topFunc(fn)) != "Conn" || fn.Blocks == nil {
+			continue
+		}
+		dispatcher := false
+		allInstrs(fn, func(ins ssa.Instruction) {
+			if lk, ok := ins.(*ssa.Lookup); ok {
+				if ld, isLd := lk.X.(*ssa.UnOp); isLd && ld.Op == token.MUL && tables[fieldKeyOfAddr(ld.X)] {
+					dispatcher = true
+				}
+			}
+		})
+		if !dispatcher {
+			continue
+		}
+		name := fnName(fn)
+		k := 0
+		connField := func(ch ssa.Value) string {
+			if ld, ok := canonVal(ch).(*ssa.UnOp); ok && ld.Op == token.MUL {
+				if fk := fieldKeyOfAddr(ld.X); strings.HasPrefix(fk, "/iscp.Conn.") {
+					return fk
+				}
+			}
+			if ld, ok := ch.(*ssa.UnOp); ok && ld.Op == token.MUL {
+				if fk := fieldKeyOfAddr(ld.X); strings.HasPrefix(fk, "/iscp.Conn.") {
+					return fk
+				}
+			}
+			return ""
+		}
+		allInstrs(fn, func(ins ssa.Instruction) {
+			switch x := ins.(type) {
+			case *ssa.Send:
+				if fk := connField(x.Chan); fk != "" {
+					k++
+					n++
+					r.Check(fmt.Sprintf("%s send#%d to %s does not block", name, k, fk), false, posOf(p, x), name, "a plain send to a connection-wide queue: when the application does not drain it the dispatcher stops routing acks and replies to every other caller")
+				}
+			case *ssa.Select:
+				for _, st := range x.States {
+					if st.Dir != types.SendOnly {
+						continue
+					}
+					if fk := connField(st.Chan); fk != "" {
+						k++
+						n++
+						r.Check(fmt.Sprintf("%s send#%d to %s does not block", name, k, fk), !x.Blocking, posOf(p, x), name, "the select that feeds a connection-wide queue has no default branch: when the application does not drain the queue the dispatcher stops routing acks and replies to every other caller (waiting for the context is still waiting)")
+					}
+				}
+			}
+		})
+	}
+	if n == 0 {
+		r.Undecided("dispatcher sends", "no send to a connection-wide queue found in the e2e dispatchers")
+	}
 }
